@@ -13,11 +13,19 @@ import subprocess
 import sys
 import time
 import traceback
+import functools
+
+print = functools.partial(print, flush=True)  # noqa: A001
 
 from . import boot
 
 PROPS = ["C01", "C02", "C06", "C07", "C09", "C10", "C11", "C18", "C19"]
 RUN_WALL_LIMIT = 300          # seconds, per worker task (watchdog)
+MAX_MINIMISED = 3             # violation groups that are minimised + replay-verified per check
+
+
+class _Skip(Exception):
+    pass
 REAL_VS_STUB = {
     "real": ["ceos_alos2 (all of it, from VERIF_REPO)", "xarray (lazy indexing, DataTree, pickling, "
              "SerializableLock logic)", "fsspec core (get_mapper, FSMap, DirFileSystem, "
@@ -237,7 +245,8 @@ def run_check(pid, tier, master, n_runs=None, workers=None, out=sys.stdout):
                       f" [{g['count']} run(s), first run index {g['first']['index']}]", file=out)
             continue
         n_unlisted += 1
-        path = report_violation(pid, tier, master, mod, g, harness_errors)
+        path = report_violation(pid, tier, master, mod, g, harness_errors,
+                                full=(n_unlisted <= MAX_MINIMISED))
         violation_lines.append(f"VIOLATION property={pid} replay={path}")
         print(f"  violation class={cls} site={site} runs={g['count']} "
               f"first_index={g['first']['index']} details={json.dumps(g['v']['details'])[:600]}",
@@ -308,17 +317,22 @@ def run_check(pid, tier, master, n_runs=None, workers=None, out=sys.stdout):
     return code
 
 
-def report_violation(pid, tier, master, mod, g, harness_errors):
+def report_violation(pid, tier, master, mod, g, harness_errors, full=True):
     """confirm in a fresh interpreter, minimise, write the replay file, verify the replay"""
     r, v = g["first"], g["v"]
     plan = r["plan"]
     ctx = multiprocessing.get_context("fork")
     minimal, tried = plan, 0
+    final = None
     try:
+        if not full:
+            raise _Skip()
         with concurrent.futures.ProcessPoolExecutor(1, mp_context=ctx,
                                                     initializer=_worker_init) as ex:
-            minimal, tried = ex.submit(_minimise_worker, pid, plan, v, 60.0).result(timeout=400)
+            minimal, tried = ex.submit(_minimise_worker, pid, plan, v, 30.0).result(timeout=400)
             final = ex.submit(_replay_worker, pid, minimal).result(timeout=300)
+    except _Skip:
+        pass
     except Exception as e:  # noqa: BLE001
         harness_errors.append("minimisation failed: " + repr(e))
         final = None
@@ -332,7 +346,8 @@ def report_violation(pid, tier, master, mod, g, harness_errors):
         else:
             minimal = plan
     os.makedirs(os.path.join(boot.VERIF_ROOT, "replays"), exist_ok=True)
-    path = os.path.join(boot.VERIF_ROOT, "replays", f"{pid}-{r['seed']:016x}.json")
+    tag = hashlib.sha256((v["cls"] + "|" + v["site"]).encode()).hexdigest()[:6]
+    path = os.path.join(boot.VERIF_ROOT, "replays", f"{pid}-{r['seed']:016x}-{tag}.json")
     doc = {"property": pid, "seed": r["seed"], "master_seed": int(master), "index": r["index"],
            "tier": tier, "plan": minimal, "original_plan": plan, "shrink_candidates_tried": tried,
            "expect": {"cls": expect["cls"], "site": expect["site"], "digest": digest,
@@ -341,6 +356,8 @@ def report_violation(pid, tier, master, mod, g, harness_errors):
         json.dump(doc, f, indent=1, default=repr)
         f.write("\n")
     # replay in a fresh interpreter must reproduce it
+    if not full:
+        return path
     try:
         p = subprocess.run([os.path.join(boot.VERIF_ROOT, "check"), pid, "--replay", path],
                            capture_output=True, text=True, timeout=600,
